@@ -9,5 +9,8 @@ OBLIGATIONS = [
   Ob('C10.inverse_eq', H, 'h_inverse_eq', tier='quick', unwind=6, uf_float=True, defines={'NCOMP': 2}, max_alloc=64,
      bound='1 value x 2 components of ANY int32, q symbolic 1..30, parameters any float bit pattern',
      covers='AttributeQuantizationTransform::InverseTransformAttribute with the decoder\'s transform vs with the description re-read via InitFromAttribute; Dequantizer'),
+  Ob('C10.normal_dec_desc', 'C10/normaldec.cc', 'h_normal_dec_desc', tier='quick', unwind=8, max_alloc=160, fill_bound=6,
+     bound='every supported bitstream version 1.0 .. 2.3, 4 symbolic parameter bytes with symbolic length, real SequentialNormalAttributeDecoder / PointAttribute objects',
+     covers='SequentialNormalAttributeDecoder::DecodeDataNeededByPortableTransform (2.0 gate), AttributeOctahedronTransform::DecodeParameters/TransferToAttribute/InitFromAttribute'),
 ]
 META = {}
